@@ -731,14 +731,30 @@ func ruleC02R5(c *Ctx) {
 	var deferInstr *ssa.Defer
 	eachInstr(ra, func(in ssa.Instruction) {
 		if d, ok := in.(*ssa.Defer); ok {
+			// a deferred literal, or a deferred named function / method of the module
+			var f *ssa.Function
 			if mc, ok := resolve(d.Call.Value).(*ssa.MakeClosure); ok {
-				f := mc.Fn.(*ssa.Function)
-				if len(c.callsTo(f, extPred(aSignal))) > 0 {
-					deferred, deferInstr = f, d
-				}
+				f = mc.Fn.(*ssa.Function)
+			} else if sc := d.Call.StaticCallee(); sc != nil && sc.Blocks != nil && c.P.inUni[sc] {
+				f = sc
+			}
+			if f != nil && len(c.callsTo(f, extPred(aSignal))) > 0 {
+				deferred, deferInstr = f, d
 			}
 		}
 	})
+	// a value of the deferred function seen from runAcknowledger: itself (captured), or the argument bound to a parameter
+	outer := func(v ssa.Value) ssa.Value {
+		r := resolve(v)
+		if prm, ok := r.(*ssa.Parameter); ok && deferred != nil && prm.Parent() == deferred {
+			for i, q := range deferred.Params {
+				if q == prm && i < len(deferInstr.Call.Args) && len(deferInstr.Call.Args) == len(deferred.Params) {
+					return resolve(deferInstr.Call.Args[i])
+				}
+			}
+		}
+		return r
+	}
 	if deferred == nil {
 		c.bad("C02.R5", ra, "deferred snapshot of the pending map", ra.Pos(), "no deferred closure signalling ackerEnded")
 		return
@@ -755,7 +771,7 @@ func ruleC02R5(c *Ctx) {
 		// the deferred closure ranges over it
 		ranged := false
 		eachInstr(deferred, func(x ssa.Instruction) {
-			if r, ok := x.(*ssa.Range); ok && resolve(r.X) == ssa.Value(mm) {
+			if r, ok := x.(*ssa.Range); ok && outer(r.X) == ssa.Value(mm) {
 				ranged = true
 			}
 		})
@@ -1183,13 +1199,100 @@ func sameCell(a, b ssa.Value) bool {
 // ---- R8: resend before new input
 
 func ruleC02R8(c *Ctx) {
+	// Stated over the session body (Run and its private helpers — resendLeftovers and processInput today), not over the
+	// names of its stages: (1) no select offers the leftovers of the previous session and new input at the same time
+	// (select picks at random among ready cases: a newer chunk would overtake an older, still undelivered one); (2) new
+	// input is only taken after the leftovers channel was tried on every path; (3) new input is only taken inside the
+	// session body.
 	run := c.P.Fn(aSessRun)
-	c.checkOrder("C02.R8", run, "resendLeftovers", callInstrSet(c.callsTo(run, anchorPred(aResend))), "processInput", callInstrSet(c.callsTo(run, anchorPred(aProcInput))))
+	// the leftovers channel: a channel of chunks that is a parameter of the session body, possibly re-assigned to nil
+	isLeftovers := func(ch ssa.Value) bool {
+		if chunkHolderKind(ch.Type()) != "chan" {
+			return false
+		}
+		seen := map[ssa.Value]bool{}
+		param, other := false, false
+		var walk func(v ssa.Value, d int)
+		walk = func(v ssa.Value, d int) {
+			v = strip(v)
+			if seen[v] || d > 8 {
+				return
+			}
+			seen[v] = true
+			switch x := v.(type) {
+			case *ssa.Parameter:
+				param = true
+			case *ssa.Const:
+				if !x.IsNil() {
+					other = true
+				}
+			case *ssa.Phi:
+				for _, e := range x.Edges {
+					walk(e, d+1)
+				}
+			case *ssa.UnOp:
+				if al, ok := x.X.(*ssa.Alloc); ok && x.Op == token.MUL {
+					for _, ref := range *al.Referrers() {
+						if st, ok := ref.(*ssa.Store); ok && st.Addr == ssa.Value(al) {
+							walk(st.Val, d+1)
+						}
+					}
+					return
+				}
+				other = true
+			default:
+				other = true
+			}
+		}
+		walk(ch, 0)
+		return param && !other
+	}
+	isInput := func(ch ssa.Value) bool { return fieldOf(resolve(ch)) == fSessInput || fieldOf(ch) == fSessInput }
+	var lefts, inputs []ssa.Instruction
+	mixed := ssa.Instruction(nil)
+	c.eachInstrR(run, func(in ssa.Instruction) {
+		l, i := false, false
+		switch x := in.(type) {
+		case *ssa.Select:
+			for _, st := range x.States {
+				if st.Dir != types.RecvOnly {
+					continue
+				}
+				l = l || isLeftovers(st.Chan)
+				i = i || isInput(st.Chan)
+			}
+		case *ssa.UnOp:
+			if x.Op == token.ARROW {
+				l, i = isLeftovers(x.X), isInput(x.X)
+			}
+		}
+		if l {
+			lefts = append(lefts, in)
+		}
+		if i {
+			inputs = append(inputs, in)
+		}
+		if l && i {
+			mixed = in
+		}
+	})
+	pos := run.Pos()
+	if mixed != nil {
+		pos = mixed.Pos()
+	}
+	c.check(mixed == nil, "C02.R8", run, "leftovers and new input are never offered in one select", pos,
+		"no select of the session body receives from both the leftovers channel and the input channel",
+		"a select receives from the leftovers channel and from the input channel: when both are ready Go picks at random, so new chunks are sent ahead of older, undelivered leftovers")
+	c.checkOrder("C02.R8", run, "receive from the previous session's leftovers", instrSet(lefts), "receive of new input", instrSet(inputs))
+	body := map[string]bool{}
+	for _, g := range c.regionOf(run) {
+		body[anchorName(g)] = true
+	}
 	n := 0
 	for _, op := range c.chanFieldOps(fSessInput) {
 		n++
-		c.check(anchorName(op.In.Parent()) == aProcInput, "C02.R8", op.In.Parent(), op.Kind+" on clientSession.inputChannel", op.In.Pos(),
-			"new chunks are only taken in processInput", "the session takes new chunks outside processInput (e.g. during the resend stage)")
+		c.check(body[anchorName(op.In.Parent())], "C02.R8", op.In.Parent(), op.Kind+" on clientSession.inputChannel", op.In.Pos(),
+			"new chunks are only taken in the session body (Run and its private helpers)", "the session's input channel is used outside the session body")
 	}
 	c.floor("C02.R8", "operations on clientSession.inputChannel", n, 1)
 	for _, op := range c.chanFieldOps("output/baseoutput.ClientWorker.inputChannel") {
@@ -1243,4 +1346,95 @@ func ruleC02R9(c *Ctx) {
 		}
 	}
 	c.check(ok, "C02.R9", ns, "abortConn = RunOnce(conn.Close)", ns.Pos(), "abortConn closes the connection exactly once", "abortConn is not built from conn.Close via NewRunOnce")
+}
+
+// ---- R11 (added after seed c02f): an anonymous ACK is only given by a connection that confirms in SendChunk itself.
+// ReadChunkAck may return an empty id, which the acknowledger credits to the OLDEST outstanding chunk (R2). That is right
+// only when nothing can complete out of send order: the connection's SendChunk has performed the whole exchange before it
+// returns (no goroutine is started on its behalf) and ReadChunkAck has nothing of its own to report (it does not wait on a
+// channel for somebody else's result). A connection that sends concurrently and reports completions as they arrive must
+// name the chunk in every ACK.
+func init() {
+	register("C02", "C02.R11", ruleC02R11)
+	register("C01", "C02.R11", ruleC02R11)
+}
+
+func ruleC02R11(c *Ctx) {
+	n := 0
+	for _, fn := range c.P.universe {
+		if fn.Name() != "ReadChunkAck" || fn.Signature.Recv() == nil || fn.Blocks == nil || fn.Parent() != nil {
+			continue
+		}
+		if strings.Contains(fn.Synthetic, "wrapper") {
+			continue
+		}
+		n++
+		anonymous := false
+		for _, rv := range returnedValues(fn, 0) {
+			if k, ok := strip(rv.Val).(*ssa.Const); ok && k.Value != nil && k.Value.Kind() == constant.String && constant.StringVal(k.Value) == "" {
+				// together with a nil error?
+				r, isRet := rv.At.(*ssa.Return)
+				if !isRet || len(r.Results) < 2 || !certainlyNonNilError(r.Results[1]) {
+					anonymous = true
+				}
+			}
+		}
+		if !anonymous {
+			c.ok("C02.R11", fn, "ACKs name their chunk", fn.Pos(), "no successful return with an empty chunk id")
+			continue
+		}
+		// the same receiver's SendChunk
+		recvT := fn.Signature.Recv().Type()
+		var send *ssa.Function
+		for _, g := range c.P.universe {
+			if g.Name() == "SendChunk" && g.Signature.Recv() != nil && types.Identical(g.Signature.Recv().Type(), recvT) && g.Blocks != nil && !strings.Contains(g.Synthetic, "wrapper") {
+				send = g
+			}
+		}
+		if send == nil {
+			c.bad("C02.R11", fn, "anonymous ACK only from a synchronous connection", fn.Pos(), "UNDECIDED: no SendChunk method of the same type found")
+			continue
+		}
+		why := ""
+		// (a) SendChunk and what it calls in its package start no goroutine
+		seen := map[*ssa.Function]bool{}
+		var scan func(f *ssa.Function, d int)
+		scan = func(f *ssa.Function, d int) {
+			if seen[f] || d > 4 || f.Blocks == nil || why != "" {
+				return
+			}
+			seen[f] = true
+			for _, a := range withAnons(f) {
+				for _, s := range callsIn(a) {
+					if _, isGo := s.(*ssa.Go); isGo {
+						why = "SendChunk starts a goroutine (" + c.P.pos(s.Pos()) + ") and returns before the exchange is over: requests complete in any order"
+						return
+					}
+					if g := s.Common().StaticCallee(); g != nil && fnPkgPath(g) == fnPkgPath(send) {
+						scan(g, d+1)
+					}
+				}
+			}
+		}
+		scan(send, 0)
+		// (b) ReadChunkAck reports nothing that was produced elsewhere
+		if why == "" {
+			for _, a := range withAnons(fn) {
+				for _, op := range chanOps(a) {
+					if op.Kind == "recv" || op.Kind == "range" || op.Kind == "select" {
+						why = "ReadChunkAck takes a result from a channel (" + c.P.pos(op.In.Pos()) + "): what it reports was completed elsewhere, in completion order"
+					}
+				}
+				eachInstr(a, func(in ssa.Instruction) {
+					if _, ok := in.(*ssa.Select); ok && why == "" {
+						why = "ReadChunkAck waits in a select (" + c.P.pos(in.Pos()) + "): what it reports was completed elsewhere, in completion order"
+					}
+				})
+			}
+		}
+		c.check(why == "", "C02.R11", fn, "anonymous ACK only from a synchronous connection", fn.Pos(),
+			"the connection returns an empty id, SendChunk ("+anchorName(send)+") starts no goroutine and ReadChunkAck waits for nothing: every chunk was confirmed or failed inside its own SendChunk",
+			"ReadChunkAck returns an empty chunk id, which the acknowledger credits to the oldest outstanding chunk, but "+why+" — a chunk is reported delivered because of another chunk's response; if its own request then fails the failure is blamed on the next chunk and the chunk is never retransmitted")
+	}
+	c.floor("C02.R11", "ReadChunkAck implementations", n, 2)
 }
